@@ -1,4 +1,4 @@
-use easy_error::{ensure, err_msg, Error, ResultExt};
+use easy_error::{ensure, Error, ResultExt};
 use futures::TryFutureExt;
 use milu::{
     parser::parse,
@@ -131,7 +131,11 @@ async fn log_thread(
 ) -> Result<(), Error> {
     let mut stream = BufWriter::new(log_open(&path).await?);
     loop {
-        let e = rx.recv().await.ok_or_else(|| err_msg("dequeue"))?;
+        // every sender gone: the process is shutting down (e.g. the configuration was refused after the log was set up)
+        let e = match rx.recv().await {
+            Some(e) => e,
+            None => return Ok(()),
+        };
         if let Some(e) = e {
             // a record the script cannot format must not end the log task (and with it the process)
             let mut line = match format.to_string(e) {
